@@ -220,9 +220,15 @@ int asm_create_bin_file(assemblyline_t al, const char *file_name) {
 
   FAIL_IF_MSG(write_ptr == NULL, "failed to create binary file")
 
-  fwrite(buffer, sizeof(uint8_t), len, write_ptr);
+  // a negative offset marks a failed assembly: there is no code to write
+  size_t written = 0;
+  if (len >= 0)
+    written = fwrite(buffer, sizeof(uint8_t), len, write_ptr);
 
-  fclose(write_ptr);
+  int close_err = fclose(write_ptr);
+
+  FAIL_IF_MSG(len < 0 || written != (size_t)len || close_err != 0,
+              "failed to write binary file\n")
 
   return EXIT_SUCCESS;
 }
